@@ -47,4 +47,16 @@ CHECKS = {
         'differential (testing). inv_step carries the guard op_ok (evaluated by the driver on every real step); the excluded class '
         'restore_resets_spent is a known finding. Closed under the global context.',
    technique='Coq proof (invariant by induction over operation lists) + history differential against real wallets'),
+ 'C02': dict(
+   text='Decision logic of Input.verify / Transaction.verify / Transaction.sign modelled for an ARBITRARY signature relation sv (Section variable): '
+        'verify_sound (True implies an order-preserving matching of m signatures to m distinct key positions, all valid), verify_complete, '
+        'verify_insufficient, verify_exact (iff characterisation), tx_verify_all_inputs, sign_fresh_then_verify; all for every key list, signature list '
+        'and threshold. Tie: real transactions of every standard input kind are built, signed in subsets/orders/several calls, tampered field by field, '
+        'round-tripped through raw()/parse and verified; verdicts, Input.valid flags and sign() status are compared with the extracted model; the '
+        'property-level oracle recomputes signature validity with fastecdsa on the library digest.',
+   design_ref='DESIGN.md section 6 C02, section 9',
+   note='Closed under the global context. ECDSA unforgeability is not claimed (C13 covers the signature layer); the general sign_then_verify over arbitrary '
+        'call sequences is stated as a Definition, proved only for the first sign() call on an unsigned input; tamper_changes_digest is covered by the '
+        'measured validity matrix, not by a theorem. Two known completeness findings (dup_point_keys, resign_keeps_stale).',
+   technique='Coq proof (induction over key/signature lists, arbitrary signature relation) + scenario differential correspondence'),
 }
